@@ -208,7 +208,7 @@ func runC20(t testing.TB, c C20Case) (key, what string, classes []string) {
 	}
 	defer proc.Kill()
 	if tty {
-		before, _ = proc.PTY.Termios()
+		before = proc.Before
 	}
 	desc := fmt.Sprintf("args %q tty=%v", args, tty)
 	healthy := len(reach) == 0 && c.Flag == ""
